@@ -208,7 +208,11 @@ impl<'tree> SwitchStatement<'tree> {
         let switch_body_node = astutil::get_child_by_field_name(switch_node, "body")?;
         let mut cases = Vec::new();
         let mut default = None;
-        for (i, node) in switch_body_node.named_children(cursor).enumerate() {
+        for (i, node) in switch_body_node
+            .named_children(cursor)
+            .filter(|n| !n.is_extra())
+            .enumerate()
+        {
             match node.kind() {
                 "switch_case" => {
                     let value =
